@@ -18,6 +18,7 @@ type Decls struct {
 	strOrder []string
 	structs  map[string]*types.Struct
 	boxes    map[string]bool
+	axioms   []string
 }
 
 func newDecls() *Decls {
@@ -28,7 +29,7 @@ func newDecls() *Decls {
 	d.raw("dt Slice", "(declare-datatypes ((Slice 0)) (((mk-slice (sl-base Int) (sl-off Int) (sl-len Int) (sl-cap Int)))))")
 	d.raw("slen", "(declare-fun slen (Str) Int)")
 	d.raw("sat", "(declare-fun sat (Str Int) Int)")
-	d.raw("slen-ax", "(assert (forall ((s Str)) (! (>= (slen s) 0) :pattern ((slen s)))))")
+	d.raw("slen-ax", "(assert (forall ((s Str)) (! (and (>= (slen s) 0) (<= (slen s) 4611686018427387904)) :pattern ((slen s)))))")
 	d.raw("sat-ax", "(assert (forall ((s Str) (i Int)) (! (and (<= 0 (sat s i)) (<= (sat s i) 255)) :pattern ((sat s i)))))")
 	d.raw("str!empty", "(declare-const str!empty Str)")
 	d.raw("str!empty-ax", "(assert (= (slen str!empty) 0))")
@@ -67,8 +68,13 @@ func (d *Decls) cnst(name string, s Sort) {
 	d.raw("fun "+name, fmt.Sprintf("(declare-const %s %s)", q(name), s))
 }
 
+// axiom: assertions over declared symbols; rendered after the string-literal constants they may mention.
 func (d *Decls) axiom(key, t Term) {
-	d.raw("ax "+key, "(assert "+t+")")
+	if d.have["ax "+key] {
+		return
+	}
+	d.have["ax "+key] = true
+	d.axioms = append(d.axioms, "(assert "+t+")")
 }
 
 func (d *Decls) typeID(t types.Type) int {
@@ -324,6 +330,10 @@ func (d *Decls) render() string {
 		b.WriteByte('\n')
 	}
 	for _, l := range d.strLitDecls() {
+		b.WriteString(l)
+		b.WriteByte('\n')
+	}
+	for _, l := range d.axioms {
 		b.WriteString(l)
 		b.WriteByte('\n')
 	}
